@@ -8,6 +8,5 @@ CONSTANTS
   MaxSteps = 5
   Deltas <- DeltasAll
   Moves <- MovesLoss
-INVARIANTS AsFoundAgrees TypeOK HighestIsMax LossIsTruth FractionOK TotalIsSaturatedSum SrZero SrReflected JitterBound
-PROPERTIES ReportCloses TotalMonotone
+INVARIANTS AsFoundAlways
 CHECK_DEADLOCK FALSE
